@@ -99,7 +99,7 @@ Init == /\ tree \in Roots \cup TwinRoots
 \* quick: item number i goes to root position (i mod nh) + 1 only; thorough: everywhere
 \* (quick: user node items below a selection of root kinds only, nothing but plain leaves below
 \* a user node root)
-UserHosts == {"Sum", "Product", "Call", "CallKw", "If", "CSE", "Tup", "List", "Power", "Slice", "Sub"}
+UserHosts == {"Sum", "Product", "Call", "CallKw", "If", "CSE", "Tup", "Power"}
 ItemAllowedAt(i, p) ==
     \/ Tier # "quick"
     \/ /\ (i % nh) + 1 = p
@@ -183,14 +183,15 @@ MoreSet(t) ==
 \* the callback mapper has no place for user handlers
 UsersOf(t) == { Pre(t)[i].u : i \in { j \in 1..Len(Pre(t)) : Pre(t)[j].t = "UNode" } }
 ImplChoices(t) ==
-    LET U == UNION { UUniverse(u) : u \in UsersOf(t) } IN
-    IF Tier = "quick" THEN { I \in SUBSET U : Cardinality(I) <= 1 \/ I = U } ELSE SUBSET U
+    LET Uni == UNION { UUniverse(u) : u \in UsersOf(t) } IN
+    IF Tier = "quick" THEN { I \in SUBSET Uni : Cardinality(I) <= 1 \/ I = Uni } ELSE SUBSET Uni
+FewImpls(t) == IF Tier = "quick" THEN { UNION { UUniverse(u) : u \in UsersOf(t) } } ELSE ImplChoices(t)
 UserSet(t) ==
          { CfgU(f, AP2, << >>, << >>, SetToSeq(I)) : f \in AllFams \ {"cbident"}, I \in ImplChoices(t) }
     \cup { CfgU("cbident", AP2, << >>, << >>, << >>) }
     \cup { CfgU("walk", AP1, << n >>, << >>, SetToSeq(I)) :
-             n \in { i \in 1..Len(Pre(t)) : Pre(t)[i].t = "UNode" }, I \in ImplChoices(t) }
-    \cup { CfgU("ident", AP3, << >>, SetToSeq(LastVar(t)), SetToSeq(I)) : I \in ImplChoices(t) }
+             n \in { i \in 1..Len(Pre(t)) : Pre(t)[i].t = "UNode" }, I \in FewImpls(t) }
+    \cup { CfgU("ident", AP3, << >>, SetToSeq(LastVar(t)), SetToSeq(I)) : I \in FewImpls(t) }
 ConfigSet(t) == IF UsersOf(t) # {}
                 THEN (IF Tier = "quick" THEN UserSet(t) ELSE UserSet(t) \cup QuickSet(t))
                 ELSE IF Tier = "quick" THEN QuickSet(t) ELSE QuickSet(t) \cup MoreSet(t)
